@@ -40,16 +40,16 @@ def children_of(o):
 
 def _children_of(o):
     t = type(o)
-    if isinstance(o, type) and t is not type:
+    if issubclass(t, type) and t is not type:
         # instances of a metaclass (e.g. Enum classes) may be described through their attribute dictionary
         return [(_name(k), None, v) for k, v in list(vars(o).items())]
-    if isinstance(o, NO_CHILD) or t.__name__ in ("module", "traceback", "list_iterator", "list_reverseiterator"):
+    if issubclass(t, NO_CHILD) or t.__name__ in ("module", "traceback", "list_iterator", "list_reverseiterator"):
         return []
     if t is dict:
         return [(_name(k), None, v) for k, v in list(o.items())]
     if t in LIST_LIKE:
         return [(str(i), None, v) for i, v in enumerate(tuple(o))]
-    if isinstance(o, Exception):
+    if issubclass(t, Exception):        # the REAL type decides (an object may present another __class__)
         return [(str(i), None, v) for i, v in enumerate(o.args)]
     d = getattr(o, "__dict__", None)
     if isinstance(d, dict):
